@@ -169,6 +169,211 @@ def norm_tie(rng, n):
     return chunks("norm", ops, 400)
 
 
+
+# ---------------------------------------------------------------------------------- stream 3
+TOL_GAMMA = 1e-8      # documented: `accurate = 1e-8` (incompleteGamma), property: 1e-8 gamma-type
+TOL_NB = 1e-12        # property: 1e-12 for the normal and beta cdfs
+TOL_QNORM_AS70 = 1e-8  # what qNorm (Odeh & Evans, AS70) achieves: measured 6e-9
+SLACK_ROUND = 1e-12   # monotonicity: allowance for rounding noise (measured <= 7e-14)
+SCIPY_NOTE = {"status": "not-run"}
+
+_SCIPY_SCRIPT = r"""
+import sys, json
+from scipy import special as S
+qs = json.load(sys.stdin); out = []
+for fn, a, b, c in qs:
+    a, b, c = float.fromhex(a), float.fromhex(b), float.fromhex(c)
+    if fn == "pnorm": v = S.ndtr(a)
+    elif fn == "pgamma": v = S.gammainc(b, c * a)
+    elif fn == "pchisq": v = S.gammainc(b / 2, a / 2)
+    elif fn == "pbeta": v = S.betainc(b, c, a)
+    else: v = float("nan")
+    out.append(float(v).hex())
+json.dump(out, sys.stdout)
+"""
+
+
+def scipy_refs(queries):
+    """reference values from scipy.special in the tooling venv; None when unavailable"""
+    exe = os.environ.get("VERIF_PYTHON_VT", "python3-vt")
+    try:
+        r = subprocess.run([exe, "-c", _SCIPY_SCRIPT], input=json.dumps([[f, a.hex(), b.hex(), c.hex()] for f, a, b, c in queries]),
+                           capture_output=True, text=True, timeout=600)
+        if r.returncode != 0:
+            SCIPY_NOTE["status"] = "unavailable: " + r.stderr.strip()[-200:]
+            return None
+        out = [float.fromhex(h) for h in json.loads(r.stdout)]
+        SCIPY_NOTE["status"] = "ok: %d reference values from scipy.special" % len(out)
+        return out
+    except Exception as e:  # missing interpreter, time-out ...
+        SCIPY_NOTE["status"] = "unavailable: %r" % (e,)
+        return None
+
+
+def acc(clause, fn, tol, ref, a, b=0.0, c=0.0):
+    return "x.acc %s %s %s %s %s %s %s" % (clause, fn, hx(tol), hx(ref), hx(a), hx(b), hx(c))
+
+
+def lin2(clause, tol, const, c1, f1, a1, c2, f2, a2):
+    return "x.lin2 %s %s %s %s %s %s %s %s %s" % (clause, hx(tol), hx(const), hx(c1), f1, " ".join(hx(v) for v in a1),
+                                                   hx(c2), f2, " ".join(hx(v) for v in a2))
+
+
+def mono(fn, slack, a1, a2):
+    return "x.mono %s %s %s %s" % (fn, hx(slack), " ".join(hx(v) for v in a1), " ".join(hx(v) for v in a2))
+
+
+def inv(fam, tol, p, a=0.0, b=0.0):
+    return "x.inv %s %s %s %s %s" % (fam, hx(tol), hx(p), hx(a), hx(b))
+
+
+def gamma_x(rng, a, b):
+    """x for a Gamma(shape a, rate b): bulk, both tails, tiny values, the series/continued-fraction switch"""
+    m, sd = a / b, math.sqrt(a) / b
+    k = rng.randrange(8)
+    if k == 0:
+        return max(5e-324, rng.uniform(0, 4 * m))
+    if k == 1:
+        return max(5e-324, m + sd * rng.uniform(-6, 6))
+    if k == 2:
+        return log_uniform(rng, 1e-300, m)
+    if k == 3:
+        return m + sd * rng.uniform(6, 40)                      # far upper tail
+    if k == 4:
+        return m * log_uniform(rng, 1, 1e6)                     # very far tail
+    if k == 5:
+        return nxt(a / b, rng.randint(-2, 2))                   # beta*x ~ alpha : branch switch
+    if k == 6:
+        return nxt(1 / b, rng.randint(-2, 2))                   # beta*x ~ 1 : branch switch
+    return log_uniform(rng, 1e-3, 1e3) / b
+
+
+def beta_x(rng, a, b):
+    m = a / (a + b); sd = math.sqrt(a * b / ((a + b) ** 2 * (a + b + 1)))
+    k = rng.randrange(7)
+    if k == 0:
+        return rng.random()
+    if k == 1:
+        return min(max(m + sd * rng.uniform(-6, 6), 5e-324), nxt(1.0, -1))
+    if k == 2:
+        return log_uniform(rng, 1e-300, 1)
+    if k == 3:
+        return 1 - log_uniform(rng, 1e-16, 1)
+    if k == 4:
+        return nxt(0.95, rng.randint(-2, 2))                    # power-series switch
+    if k == 5:
+        return min(max(nxt(m, rng.randint(-2, 2)), 5e-324), nxt(1.0, -1))   # tail swap
+    return min(1 / b, 0.95) * rng.random()                      # b*x <= 1 region
+
+
+def pq(rng):
+    k = rng.randrange(4)
+    if k == 0:
+        return rng.uniform(1e-6, 1 - 1e-6)
+    if k == 1:
+        return log_uniform(rng, 1e-6, 0.5)
+    if k == 2:
+        return 1 - log_uniform(rng, 1e-6, 0.5)
+    return rng.choice([1e-6, .000002, 0.5, .999998, 1 - 1e-6, 0.25, 0.75])
+
+
+def explore(rng, n):
+    """returns (ops needing no reference, queries for scipy with a builder each)"""
+    ops, want = [], []
+    for _ in range(n):
+        # ---- accuracy against the independent reference
+        z = rng.choice([rng.uniform(-40, 40), rng.uniform(-9, 9), rng.uniform(-1, 1)])
+        want.append(("pnorm", z, 0.0, 0.0, TOL_NB))
+        a, b = log_uniform(rng, 0.05, 200), log_uniform(rng, 1e-3, 1e3)
+        x = gamma_x(rng, a, b)
+        want.append(("pgamma", x, a, b, TOL_GAMMA))
+        v = log_uniform(rng, 0.1, 400)
+        xc = gamma_x(rng, v / 2, 0.5)
+        want.append(("pchisq", xc, v, 0.0, TOL_GAMMA))
+        al, be = log_uniform(rng, 0.1, 200), log_uniform(rng, 0.1, 200)
+        xb = beta_x(rng, al, be)
+        want.append(("pbeta", xb, al, be, TOL_NB))
+        # ---- special cases with a closed form (reference computed here with math.*)
+        ops.append(acc("special", "pgamma", TOL_GAMMA, -math.expm1(-b * x), x, 1.0, b))
+        ops.append(acc("special", "pchisq", TOL_GAMMA, -math.expm1(-xc / 2), xc, 2.0))
+        ops.append(acc("special", "pbeta", TOL_NB, xb ** al, xb, al, 1.0))
+        ops.append(acc("special", "pbeta", TOL_NB, -math.expm1(be * math.log1p(-xb)), xb, 1.0, be))
+        ops.append(acc("special", "pbeta", TOL_NB, xb, xb, 1.0, 1.0))
+        # ---- end points of the support
+        ops.append(acc("ends", "pgamma", 0.0, 0.0, 0.0, a, b))
+        ops.append(acc("ends", "pgamma", TOL_GAMMA, 1.0, (a + 40 * math.sqrt(a) + 800) / b * log_uniform(rng, 1, 1e290 * min(b, 1.0)), a, b))
+        ops.append(acc("ends", "pchisq", 0.0, 0.0, 0.0, v))
+        ops.append(acc("ends", "pchisq", TOL_GAMMA, 1.0, (v + 40 * math.sqrt(v) + 1700) * log_uniform(rng, 1, 1e290), v))
+        ops.append(acc("ends", "pbeta", 0.0, 0.0, 0.0, al, be))
+        ops.append(acc("ends", "pbeta", 0.0, 1.0, 1.0, al, be))
+        ops.append(acc("ends", "pnorm", 0.0, 0.0, rng.uniform(-40, -37.6)))
+        ops.append(acc("ends", "pnorm", 0.0, 1.0, rng.uniform(8.3, 40)))
+        # ---- identities
+        ops.append(lin2("reflect_pnorm", 4 * 2.0 ** -53, 1.0, 1.0, "pnorm", (z, 0.0, 0.0), 1.0, "pnorm", (-z, 0.0, 0.0)))
+        if 1.0 - (1.0 - xb) == xb:     # only where 1-x is exact (else the test itself perturbs the argument)
+            ops.append(lin2("reflect_pbeta", 2 * TOL_NB, 1.0, 1.0, "pbeta", (xb, al, be), 1.0, "pbeta", (1 - xb, be, al)))
+        if b * x > 0:
+            term = math.exp(a * math.log(b * x) - b * x - math.lgamma(a + 1))
+            ops.append(lin2("recur_pgamma", 2 * TOL_GAMMA, -term, 1.0, "pgamma", (x, a + 1, b), -1.0, "pgamma", (x, a, b)))
+        if 0 < xb < 1:
+            term = math.exp(al * math.log(xb) + be * math.log1p(-xb) - math.log(al) - (math.lgamma(al) + math.lgamma(be) - math.lgamma(al + be)))
+            ops.append(lin2("recur_pbeta", 2 * TOL_NB, -term, 1.0, "pbeta", (xb, al + 1, be), -1.0, "pbeta", (xb, al, be)))
+        # ---- monotonicity of the cdfs in x (random pairs and floating-point neighbours).
+        # Generic pairs: non-decreasing up to SLACK_ROUND (rounding noise of the kernels, measured
+        # <= 7e-14; the slack is far below the documented accuracy).  Pairs straddling a switch of
+        # formula are labelled `@switch` and asked twice: strictly, and up to twice the accuracy.
+        z2 = rng.choice([rng.uniform(-40, 40), nxt(z, rng.randint(1, 3)), z + log_uniform(rng, 1e-12, 1)])
+        ops.append(mono("pnorm", SLACK_ROUND, sorted([z, z2])[:1] + [0.0, 0.0], sorted([z, z2])[1:] + [0.0, 0.0]))
+        c = rng.choice(PNORM_CUTS[1:5]) * rng.choice([-1, 1])
+        ops.append(mono("pnorm@switch", SLACK_ROUND, (nxt(c, -rng.randint(1, 2)), 0.0, 0.0), (nxt(c, rng.randint(0, 2)), 0.0, 0.0)))
+        x2 = rng.choice([gamma_x(rng, a, b), nxt(x, rng.randint(1, 3)), x * (1 + log_uniform(rng, 1e-15, 1))])
+        lo, hi = sorted([x, x2])
+        sw = (b * lo < a <= b * hi) or (b * lo <= 1 < b * hi)
+        ops.append(mono("pgamma", 2 * TOL_GAMMA if sw else SLACK_ROUND, (lo, a, b), (hi, a, b)))
+        xs = rng.choice([a / b, 1 / b])
+        lo, hi = nxt(xs, -rng.randint(1, 3)), nxt(xs, rng.randint(1, 3))
+        ops.append(mono("pgamma@switch", 0.0, (lo, a, b), (hi, a, b)))
+        ops.append(mono("pgamma@switch", 2 * TOL_GAMMA, (lo, a, b), (hi, a, b)))
+        x2 = rng.choice([gamma_x(rng, v / 2, 0.5), nxt(xc, rng.randint(1, 3)), xc * (1 + log_uniform(rng, 1e-15, 1))])
+        lo, hi = sorted([xc, x2])
+        sw = (lo / 2 < v / 2 <= hi / 2) or (lo / 2 <= 1 < hi / 2)
+        ops.append(mono("pchisq", 2 * TOL_GAMMA if sw else SLACK_ROUND, (lo, v, 0.0), (hi, v, 0.0)))
+        xs = rng.choice([v, 2.0])
+        lo, hi = nxt(xs, -rng.randint(1, 3)), nxt(xs, rng.randint(1, 3))
+        ops.append(mono("pchisq@switch", 0.0, (lo, v, 0.0), (hi, v, 0.0)))
+        ops.append(mono("pchisq@switch", 2 * TOL_GAMMA, (lo, v, 0.0), (hi, v, 0.0)))
+        x2 = min(rng.choice([beta_x(rng, al, be), nxt(xb, rng.randint(1, 3)), xb * (1 + log_uniform(rng, 1e-15, 1))]), 1.0)
+        lo, hi = sorted([xb, x2])
+        ops.append(mono("pbeta", 2 * TOL_NB, (lo, al, be), (hi, al, be)))
+        xs = rng.choice([0.95, al / (al + be), min(1 / be, 0.9)])
+        ops.append(mono("pbeta@switch", 2 * TOL_NB, (nxt(xs, -rng.randint(1, 3)), al, be), (nxt(xs, rng.randint(1, 3)), al, be)))
+        # ---- quantiles: monotone in p, and inverse of the cdf
+        p1, p2 = sorted([pq(rng), pq(rng)])
+        if rng.random() < 0.3:
+            p2 = min(nxt(p1, rng.randint(1, 3)), 1 - 1e-6)
+        ops.append(mono("qnorm", SLACK_ROUND, (p1, 0.0, 0.0), (p2, 0.0, 0.0)))
+        # strict (the property's 1e-12) and at the accuracy of the algorithm qNorm cites (AS70)
+        ops.append(inv("norm", TOL_NB, p1))
+        ops.append(inv("norm", TOL_QNORM_AS70, p1))
+        qa, qb = log_uniform(rng, 0.3, 200), log_uniform(rng, 0.3, 200)
+        ops.append(mono("qbeta", SLACK_ROUND, (p1, qa, qb), (p2, qa, qb)))
+        ops.append(inv("beta", TOL_NB, p1, qa, qb))
+        ops.append(inv("beta", TOL_NB, p2, qa, qb))
+        # the gamma-type quantiles document 0.000002 < p < 0.999998
+        g1, g2 = min(max(p1, .000002), .999998), min(max(p2, .000002), .999998)
+        ops.append(mono("qgamma", SLACK_ROUND, (g1, a, b), (g2, a, b)))
+        ops.append(inv("gamma", TOL_GAMMA, g1, a, b))
+        ops.append(mono("qchisq", SLACK_ROUND, (g1, v, 0.0), (g2, v, 0.0)))
+        ops.append(inv("chisq", TOL_GAMMA, g2, v))
+    refs = scipy_refs([(f, a, b, c) for (f, a, b, c, _) in want])
+    if refs is not None:
+        for (f, a, b, c, tol), r in zip(want, refs):
+            if r == r:
+                ops.append(acc("accuracy", f, tol, r, a, b, c))
+    rng.shuffle(ops)
+    return chunks("x", ops, 1)
+
+
 def generate(seed, tier):
     rng = random.Random(seed)
     big = tier == "thorough"
@@ -176,7 +381,42 @@ def generate(seed, tier):
     cases += guard_grid(rng, tier)
     cases += guard_random(rng, 20000 if big else 3000)
     cases += norm_tie(rng, 40000 if big else 4000)
+    cases += explore(rng, 3000 if big else 300)
     return cases
+
+
+def coverage_extra(cases, answers):
+    """exploration statistics for the evidence (supporting search, not proof)"""
+    worst, counts, raised = {}, {}, 0
+    for c, a in zip(cases, answers):
+        ops = [l for l in c if not l.startswith("case")]
+        for l, r in zip(ops, a or []):
+            t = l.split()
+            if not t[0].startswith("x."):
+                continue
+            key = t[0] + ":" + (t[1] if t[0] != "x.acc" else t[1] + ":" + t[2])
+            counts[key] = counts.get(key, 0) + 1
+            rt = r.split()
+            try:
+                if t[0] == "x.acc":
+                    err = abs(unhx(rt[0]) - unhx(t[4]))
+                elif t[0] == "x.inv":
+                    err = abs(unhx(rt[1]) - unhx(t[3]))
+                    if not (unhx(rt[2]) <= unhx(t[3]) <= unhx(rt[3])) and err > worst.get(key + ":unbracketed", 0.0):
+                        worst[key + ":unbracketed"] = err
+                elif t[0] == "x.mono":
+                    err = max(0.0, unhx(rt[0]) - unhx(rt[1]))
+                else:
+                    err = abs(unhx(t[4]) * unhx(rt[0]) + unhx(t[9]) * unhx(rt[1]) - unhx(t[3]))
+                if err > worst.get(key, 0.0):
+                    worst[key] = err
+            except (ValueError, IndexError):
+                raised += 1
+    return {"search_ops": counts, "search_worst_deviation": {k: float("%.3g" % v) for k, v in sorted(worst.items())},
+            "search_unparsed_or_raised": raised, "search_reference": SCIPY_NOTE["status"],
+            "search_note": "x.* ops are exploration of the numeric kernels on grids/random points (accuracy vs scipy.special, "
+                           "closed-form special cases, identities, monotonicity, inverse relations); they support, and are not "
+                           "part of, obligations/discharged"}
 
 
 if __name__ == "__main__":
